@@ -11,6 +11,11 @@ Asserted: the request is processed (turn dispatched / on_cancel run) <=> m == m0
 rejects it (a client error) and runs no user code.  Wording, cause class and the exact 4xx status of the
 rejection are not looked at.
 
+Second item: the pair need not be the one a single /init handed out.  m0's cursor is also presented at m's endpoint
+together with the call token of a stream that m's OWN /init legitimately opened for the same caller (mixed pair), and
+with no call token at all; every m != m0 must refuse it and run no user code (the cursor has no method binding of its
+own - only the call it resolves to ties it to a method).
+
 History: the first run found the genuine defect this property is about (no method name in either token
 or in the cache key; fixed in the repository, signature C13:cross-method:accepted).  Replay: real
 multi-method service through the sync HTTP client - only a request that provably went to the other
@@ -19,7 +24,7 @@ method's /exchange URL is judged.
 
 from __future__ import annotations
 
-from engine.api import cond, is_open
+from engine.api import cond, is_open, pick
 
 from harness import _tokens_common as tc
 from vgi_rpc.http.server import _app_stream as aps
@@ -28,7 +33,7 @@ from vgi_rpc.rpc import AuthContext
 
 PROPERTY = "C13"
 ENCODED = list(tc.DISPATCH_FUNCS) + [st._CallStateCache.get, st._CallStateCache.put]
-BOUNDS = "8 stream methods (a,b: same state class + call state; c,d: another class; p: producer; u: union; two 60-character names sharing a 54-character prefix) x 8 endpoints; the method binding itself for ALL method names (SMT); 0..1 turns before the switch, continuation or cancel, warm or cold cache, one identity"
+BOUNDS = "cursor accompanied by its own call token, by the call token of a stream the target method itself opened, or by none; 8 stream methods (a,b: same state class + call state; c,d: another class; p: producer; u: union; two 60-character names sharing a 54-character prefix) x 8 endpoints; the method binding itself for ALL method names (SMT); 0..1 turns before the switch, continuation or cancel, warm or cold cache, one identity"
 OUTSIDE = "the per-turn helpers (_run_http_exchange_turn/_run_http_producer_turn: replaced by a recorder that refreshes the cursor through the real _mint_cursor_token); Arrow decoding of a foreign state class (fake: decoding fails iff the class differs); unknown-method 404 (resource layer)"
 ASSUMPTIONS = [*tc.TOKEN_STUBS, *tc.DISPATCH_STUBS, "a state class decodes exactly the cursor payloads of its own class (stands for Arrow schema compatibility)"]
 
@@ -103,8 +108,10 @@ def _pick(sel: int, n: int) -> int:
     raise AssertionError
 
 
-def _run(m0: int, m: int, turns: int, cancel: bool, warm: bool) -> tuple:
-    """-> (served, processed_events, error_info)"""
+def _run(m0: int, m: int, turns: int, cancel: bool, warm: bool, pair: int = 0) -> tuple:
+    """-> (served, processed_events, error_info).  ``pair``: which call token accompanies m0's cursor at m's endpoint -
+    0 the one m0's /init minted (the stream's own pair), 1 the call token of a stream that m's OWN /init legitimately
+    opened for the same caller (mixed pair), 2 none."""
     tc.reset(now=100)
     srv = tc.FakeServer(_Impl(), {name: tc.MethodInfo(name) for name in _METHODS})
     app = tc.FakeApp(srv, dict(_STATE_TYPES), b"server-key", 3600, 16 if warm else 0)
@@ -117,9 +124,11 @@ def _run(m0: int, m: int, turns: int, cancel: bool, warm: bool) -> tuple:
         except Exception as e:  # noqa: BLE001
             return False, ["own-endpoint turn failed"], tc.http_error_info(e) or (0, repr(e))
         cur = r[tc.STATE_KEY]
+    if pair == 1:
+        call = tc.do_init(app, _METHODS[m], _AUTH)[tc.CALL_STATE_KEY]  # the target method's own, legitimate stream
     del tc.LOG[:]
     tc.HOLD["now"] += 1
-    req = {tc.STATE_KEY: cur, tc.CALL_STATE_KEY: call}
+    req = {tc.STATE_KEY: cur, tc.CALL_STATE_KEY: call} if pair != 2 else {tc.STATE_KEY: cur}
     if cancel:
         req[tc.CANCEL_KEY] = b"1"
     err = None
@@ -210,8 +219,12 @@ class E2EImpl:
         return Stream(output_schema=_E2E_OUT, state=Acc(tag="imperial"), input_schema=_E2E_IN)
 
 
-def _e2e(m0: str, m: str, turns: int, cancel: bool, warm: bool) -> tuple:
-    """-> (served_by_foreign_endpoint, description)"""
+_E2E_TAG = {"a": "a", "b": "b", "c": "c", "d": "d", "u": "u", _LONG_A: "metric", _LONG_B: "imperial"}  # state tag each /init mints
+
+
+def _e2e(m0: str, m: str, turns: int, cancel: bool, warm: bool, pair: int = 0) -> tuple:
+    """-> (served_by_foreign_endpoint, description).  ``pair`` as in ``_run``: for 1 / 2 the client really opens a stream
+    of m as well and sends m0's cursor in that stream's next request (with m's own call token / without one)."""
     from vgi_rpc.http import http_connect
     from vgi_rpc.http._testing import make_sync_client
 
@@ -241,8 +254,16 @@ def _e2e(m0: str, m: str, turns: int, cancel: bool, warm: bool) -> tuple:
                     session.exchange(batch)
                 except Exception as e:  # noqa: BLE001
                     return True, f"POST /{m0}/exchange refused a regular turn of the stream its own /init opened: {type(e).__name__}: {str(e)[:120]}"
-            session._method = m  # the same tokens, POSTed to /{m}/exchange
+            if pair == 0:
+                session._method = m  # the same tokens, POSTed to /{m}/exchange
+            else:
+                own = session
+                session = getattr(proxy, m)()  # m's own stream: its requests go to /{m}/exchange with m's call token
+                session._state_bytes = own._state_bytes  # ... but carry the cursor that /{m0}/init (and its turns) minted
+                if pair == 2:
+                    session._call_state_bytes = None
             n0, u0 = len(E2E_LOG), len(client.urls)
+            foreign_state = lambda evs: [e for e in evs if pair == 0 or str(e[2]).split(":")[0] == _E2E_TAG[m0]]  # noqa: E731
 
             def at_foreign_endpoint() -> bool:
                 # judge only a request that really went to the other method's endpoint (the client may compute its URL differently)
@@ -250,17 +271,26 @@ def _e2e(m0: str, m: str, turns: int, cancel: bool, warm: bool) -> tuple:
 
             if cancel:
                 session.cancel()
-                ran = [e for e in E2E_LOG[n0:] if e[0] == "on_cancel"]
-                return bool(ran) and at_foreign_endpoint(), f"POST /{m}/exchange (cancel) with the tokens minted by /{m0}/init ran on_cancel: {ran}"
+                ran = foreign_state([e for e in E2E_LOG[n0:] if e[0] == "on_cancel"])
+                return bool(ran) and at_foreign_endpoint(), f"POST /{m}/exchange (cancel) with {_PAIR_TEXT[pair].format(m0=m0, m=m)} ran on_cancel on /{m0}'s state: {ran}"
             try:
                 out = session.exchange(batch)
             except Exception as e:  # noqa: BLE001
                 return False, f"rejected: {type(e).__name__}: {str(e)[:120]}"
-            return at_foreign_endpoint(), f"POST {client.urls[-1] if client.urls else '?'} with the tokens minted by /{m0}/init was served: {out.batch.to_pydict()} (server log {E2E_LOG[n0:]}; /{m}/init never ran)"
+            ran = foreign_state([e for e in E2E_LOG[n0:] if e[0] == "process"])
+            return bool(ran) and at_foreign_endpoint(), (
+                f"POST {client.urls[-1] if client.urls else '?'} with {_PAIR_TEXT[pair].format(m0=m0, m=m)} was served: {out.batch.to_pydict()} "
+                f"(server log {E2E_LOG[n0:]}: method {m!r} processed the state that /{m0}/init produced)"
+            )
     finally:
         client.close()
 
 
+_PAIR_TEXT = (
+    "the tokens minted by /{m0}/init",
+    "the cursor minted by /{m0}/init and the call token of a stream /{m}/init opened for the same caller",
+    "the cursor minted by /{m0}/init and no call token",
+)
 _REAL_TYPES = {"a": tc.RealStateA, "b": tc.RealStateA, "c": tc.RealStateB, "d": tc.RealStateB, "p": tc.RealStateA, "u": (tc.RealStateA, tc.RealStateB), _LONG_A: tc.RealStateA, _LONG_B: tc.RealStateA}
 
 
@@ -302,6 +332,54 @@ def tokens_accepted_only_at_minting_method(m0: int, m: int, turns: int, cancel: 
         kind = "on_cancel" if cancel else "turn"
         return served and len(processed) >= 1 and all(ev[0] == kind for ev in processed) and (cancel or all(ev[1] == _METHODS[m] for ev in processed))
     return (not served) and not processed and err is not None and 400 <= err[0] < 500  # "rejected": a client error, no user code ran
+
+
+# ---------------------------------------------------------------------------
+# a foreign cursor is refused whatever call token accompanies it
+# ---------------------------------------------------------------------------
+# The cursor token carries no method binding of its own: at /{m}/exchange it is tied to a method only through the call it
+# resolves to (a cache entry keyed by m, or a call token that opens under m's AAD AND names the cursor's call id).  So
+# the pair presented need not be the one a single /init handed out: the client also holds the call token of a stream
+# that m's OWN /init legitimately opened for it.  m0's cursor + m's call token (or no call token) at m's endpoint
+# must be refused for every m != m0 - otherwise m processes state that its own initialization did not produce.
+
+SIG_MIX = "C13:cross-method:foreign-cursor-accepted"
+_MIX_TURNS = pick(0, 1)
+
+
+def _replay_mixed(args: dict) -> str | None:
+    m0, m, pair = _METHODS[args["m0"]], _METHODS[args["m"]], args["pair"]
+    if m0 == m or pair not in (1, 2):
+        return None
+    if m0 in E2EService.__dict__ and m in E2EService.__dict__:
+        try:
+            served, how = _e2e(m0, m, args["turns"], args["cancel"], args["warm"], pair)
+        except AttributeError:
+            return None  # the client keeps its tokens elsewhere: this replay cannot build the request
+        return how if served else None
+    with tc.RealWorld(_REAL_TYPES, b"k" * 32, 3600, 16 if args["warm"] else 0) as w:
+        s0 = w.init(m0, _AUTH, producer=(m0 == "p"))
+        s1 = w.init(m, _AUTH, producer=(m == "p"))
+        got = w.unpack(m, _AUTH, s0["cursor"], s1["call"] if pair == 1 else None)
+    if got[0] == "ok":
+        return f"_unpack_and_recover_state for endpoint {m!r} accepted {_PAIR_TEXT[pair].format(m0=m0, m=m)}: state {got[1]!r}"
+    return None
+
+
+@cond(q=75, t=300, stubs=[*tc.TOKEN_STUBS, *tc.DISPATCH_STUBS], encoded=ENCODED,
+      bound="8 x 7 ordered pairs of distinct stream methods (with / without call state, producer, union, long names); m0's current cursor after 0..%d turns presented at m's endpoint together with "
+      "the call token of a stream m's own /init opened for the same caller, or with none; continuation or cancel; warm (both /init calls ran here) or cold worker" % _MIX_TURNS,
+      replay=_replay_mixed, signature=lambda a, c: SIG_MIX + (":with-target-methods-call-token" if a.get("pair") == 1 else ":without-call-token"))
+def foreign_cursor_is_refused_whatever_call_token_accompanies_it(m0: int, m: int, pair: int, turns: int, cancel: bool, warm: bool) -> bool:
+    """
+    pre: 0 <= m0 <= 7 and 0 <= m <= 7 and m0 != m and 1 <= pair <= 2 and 0 <= turns <= _MIX_TURNS
+    post: _
+    """
+    m0, m, pair, turns = _pick(m0, 8), _pick(m, 8), _pick(pair, 3), _pick(turns, 2)
+    served, processed, err = _run(m0, m, turns, cancel, warm, pair)
+    if processed == ["own-endpoint turn failed"]:
+        return False  # the minting method's own endpoint refused a regular turn
+    return (not served) and not processed and err is not None and 400 <= err[0] < 500  # refused as a client error, no user code ran
 
 
 # ---------------------------------------------------------------------------
